@@ -10,6 +10,7 @@ OASIS text.  `absMsg m` is the packet a message object stands for (its fields);
 All theorems quantify over every message / byte string / counter value.
 -/
 import Mqtt.Proofs.CodecBuilt
+import Mqtt.Proofs.CodecReachThm
 import Mqtt.Proofs.XlateCodec
 import Mqtt.Proofs.XlatePutUvarint
 import Mqtt.Proofs.XlateValid
@@ -120,6 +121,164 @@ example : (match encode examplePublish 65535 examplePublish.len with
 example : (match decodeNew 4 [0x40, 0x02, 0x12, 0x34, 0xff, 0xff] with
            | .ok d => decide (d.n = 4 ∧ d.msg.len = 4)
            | _ => false) = true := by decide
+
+/-! ## Messages reachable through the API: `Type.New()` **or a successful `Decode`**, then setters
+
+`Reachable m`: `m` is `Type(t).New()` or the message a decoder returned for *any* accepted byte string,
+followed by any number of calls of the 25 public setters (`Proofs/CodecReachThm.lean`).  This is what the
+broker does with every forwarded PUBLISH: `SetQoS`, `SetRetain`, `SetDup`, `SetPacketID` on a decoded
+message write through `mtypeflags` / `packetID` into the decode buffer while the object is not dirty, and
+`Encode` then copies that buffer; every other setter marks the object dirty and `Encode` rebuilds the bytes
+from the fields.  `run o ss` is the same thing with the history spelled out (`Origin` = `new t` or
+`dec t src`; `ss` = the setter calls in order). -/
+
+theorem reachable_iff (m : Msg) : Reachable m ↔ ∃ o ss, run o ss = some m :=
+  reachable_iff_run m
+
+/-- `Encode` into `Len()` bytes writes exactly `Len()` bytes, for every reachable message
+(a special case of `encode_len`, which holds for every message object). -/
+theorem C03_reachable_encode_len (m : Msg) (_hr : Reachable m) (ctr : UInt64) (e : Encoded)
+    (he : encode m ctr m.len = .ok e) : e.out.length = m.len :=
+  encode_len_all m ctr e he
+
+/-- The full statement "the bytes `Encode` writes are the MQTT 3.1.1 reference encoding of the message's
+current fields", for every reachable message.  **False as it stands** (`…_counterexample`): a decoder accepts
+byte strings that are not the reference encoding of the fields it returns — a remaining length written with
+more bytes than necessary (`40 82 00 …`, allowed by MQTT 3.1.1), a CONNECT whose user-name/password flag
+announces a field that is missing (malformed, accepted leniently) — and while the object is not dirty `Encode`
+reproduces exactly those bytes (`encode_decode_canonical`), with the flag and identifier bytes the setters
+have written through. -/
+def ReachableEncodeIsWire : Prop :=
+  ∀ m, Reachable m → WillOk m → ∀ (ctr : UInt64) (e : Encoded), encode m ctr m.len = .ok e →
+    e.out = Wire.encode (absMsg e.msg)
+
+instance (m : Msg) : Decidable (WillOk m) := by
+  cases m <;> unfold WillOk <;> infer_instance
+
+/-- witness 1 (what the broker does to a forwarded PUBLISH): QoS 1 PUBLISH "a" / id 7 / "hi" whose
+remaining length 7 is written `87 00`; then `SetQoS(2)`, `SetRetain(true)`, `SetDup(true)`, `SetPacketID(9)` -/
+def cexPublish : Origin := .dec 3 [0x32, 0x87, 0x00, 0x00, 0x01, 0x61, 0x00, 0x07, 0x68, 0x69]
+def cexSetters : List Setter := [.qos 2, .retain true, .dup true, .id 9]
+
+/-- witness 2: CONNECT (clean session, client id "a") with the user-name flag set and no user-name field -/
+def cexConnect : Origin :=
+  .dec 1 [0x10, 0x0d, 0x00, 0x04, 0x4d, 0x51, 0x54, 0x54, 0x04, 0x82, 0x00, 0x00, 0x00, 0x01, 0x61]
+
+/-- what the two witnesses encode to, next to the reference encoding of their fields (both runs are
+`Excluded`, both objects are still clean) -/
+theorem C03_reachable_encode_is_wire_witnesses :
+    (match run cexPublish cexSetters with
+     | some m => (match encode m 0 m.len with
+       | .ok e => decide (e.out = [0x3d, 0x87, 0x00, 0x00, 0x01, 0x61, 0x00, 0x09, 0x68, 0x69] ∧
+                          Wire.encode (absMsg e.msg) = [0x3d, 0x07, 0x00, 0x01, 0x61, 0x00, 0x09, 0x68, 0x69] ∧
+                          m.hdr.dirty = false ∧ Excluded cexPublish cexSetters = true ∧ WillOk m)
+       | _ => false)
+     | none => false) = true ∧
+    (match run cexConnect [] with
+     | some m => (match encode m 0 m.len with
+       | .ok e => decide (e.out = [0x10, 0x0d, 0x00, 0x04, 0x4d, 0x51, 0x54, 0x54, 0x04, 0x82, 0x00, 0x00, 0x00, 0x01, 0x61] ∧
+                          Wire.encode (absMsg e.msg) =
+                            [0x10, 0x0f, 0x00, 0x04, 0x4d, 0x51, 0x54, 0x54, 0x04, 0x82, 0x00, 0x00, 0x00, 0x01, 0x61, 0x00, 0x00] ∧
+                          m.hdr.dirty = false ∧ Excluded cexConnect [] = true ∧ WillOk m)
+       | _ => false)
+     | none => false) = true := by
+  constructor <;> decide
+
+theorem C03_reachable_encode_is_wire_counterexample : ¬ ReachableEncodeIsWire := by
+  intro H
+  have hw := C03_reachable_encode_is_wire_witnesses.1
+  cases hr : run cexPublish cexSetters with
+  | none => rw [hr] at hw; cases hw
+  | some m =>
+    rw [hr] at hw
+    simp only [] at hw
+    have hreach : Reachable m := (reachable_iff m).mpr ⟨_, _, hr⟩
+    cases he : encode m 0 m.len with
+    | ok e =>
+      rw [he] at hw
+      have hw := of_decide_eq_true hw
+      have := H m hreach hw.2.2.2.2 0 e he
+      rw [hw.1, hw.2.1] at this
+      revert this
+      decide
+    | err => rw [he] at hw; cases hw
+    | panic => rw [he] at hw; cases hw
+
+/-- `_partial`: the statement holds for every run that is not `Excluded` — i.e. unless the decoder's input
+was **not** the reference encoding of the fields it returned (`Origin.canonical`, decidable: re-encode and
+compare) *and* no setter call has marked the object dirty since.  In particular it holds for every message
+decoded from a reference encoding and then modified by any setters (the in-place path of `SetDup`,
+`SetRetain`, `SetQoS` 1↔2, `SetPacketID` included), and for every message — decoded from anything — once a
+setter such as `SetQoS` 0↔1, `SetTopic`, `SetPayload`, `AddTopic`, `RemoveTopic` has made it dirty. -/
+theorem C03_reachable_encode_is_wire_partial (o : Origin) (ss : List Setter) (m : Msg) (hr : run o ss = some m)
+    (hx : Excluded o ss = false) (hw : WillOk m) (ctr : UInt64) (e : Encoded)
+    (he : encode m ctr m.len = .ok e) : e.out = Wire.encode (absMsg e.msg) :=
+  run_encode_wire hr hx hw ctr e he
+
+/-- the dirty half of `_partial` without a history: whatever a message was decoded from, once it is dirty
+`Encode` writes the reference encoding of its fields -/
+theorem C03_reachable_dirty_encode_is_wire (m : Msg) (hr : Reachable m) (hd : m.hdr.dirty = true) (hw : WillOk m)
+    (ctr : UInt64) (e : Encoded) (he : encode m ctr m.len = .ok e) : e.out = Wire.encode (absMsg e.msg) :=
+  reachable_dirty_encode_wire hr hd hw ctr e he
+
+/-- The full round-trip statement for reachable messages.  Proved for every run that is not `Excluded`
+(`…_partial`); for the excluded runs (input not a reference encoding, object still clean) it is neither
+proved nor refuted here — the witnesses above do decode back to equal fields (`example`s below), and the
+differential runs (`codec build from=…`) check it on the real code. -/
+def ReachableDecodeEncode : Prop :=
+  ∀ m, Reachable m → WillOk m → ∀ (ctr : UInt64) (e : Encoded), encode m ctr m.len = .ok e →
+    Wire.WF (absMsg e.msg) → ∀ rest : Bytes,
+      ∃ d, decodeNew (absMsg e.msg).type (e.out ++ rest) = .ok d ∧ d.n = e.out.length ∧ absMsg d.msg = absMsg e.msg
+
+theorem C03_reachable_decode_encode_partial (o : Origin) (ss : List Setter) (m : Msg) (hr : run o ss = some m)
+    (hx : Excluded o ss = false) (hw : WillOk m) (ctr : UInt64) (e : Encoded)
+    (he : encode m ctr m.len = .ok e) (hwf : Wire.WF (absMsg e.msg)) (rest : Bytes) :
+    ∃ d, decodeNew (absMsg e.msg).type (e.out ++ rest) = .ok d ∧ d.n = e.out.length ∧
+      absMsg d.msg = absMsg e.msg :=
+  run_round_trip hr hx hw ctr e he hwf rest
+
+/-- `Encode` does not refuse a reachable message: a clean one is copied as it is (no identifier is
+assigned on that path — a decoded SUBSCRIBE with identifier 0 is re-encoded with identifier 0); a dirty one
+whose fields, with an identifier assigned where one is missing, form a well-formed packet is encoded and
+left as `assign m ctr` (the statement `encode_succeeds` makes for built messages). -/
+theorem C03_reachable_encode_succeeds (m : Msg) (hr : Reachable m) (ctr : UInt64)
+    (hwf : m.hdr.dirty = true → Wire.WF (absMsg (assign m ctr))) :
+    ∃ e, encode m ctr m.len = .ok e ∧ e.msg = assignR m ctr :=
+  reachable_encode_succeeds hr ctr hwf
+
+/-- every reachable message keeps the shape of its packet type (type nibble, reserved flags, list lengths) -/
+theorem C03_reachable_shape (m : Msg) (hr : Reachable m) : Shape m :=
+  shape_reachable hr
+
+/-- non-vacuity: a PUBLISH decoded from its reference encoding (QoS 1, topic "a", id 7, payload "hi"), then
+`SetQoS(2)`, `SetRetain(true)`, `SetDup(true)`, `SetPacketID(9)`: not excluded, still clean (the in-place
+path), and re-encoded as `3d 07 00 01 61 00 09 68 69` -/
+def examplePublishDecoded : Origin := .dec 3 [0x32, 0x07, 0x00, 0x01, 0x61, 0x00, 0x07, 0x68, 0x69]
+
+example : (match run examplePublishDecoded cexSetters with
+           | some m => (match encode m 0 m.len with
+             | .ok e => decide (e.out = [0x3d, 0x07, 0x00, 0x01, 0x61, 0x00, 0x09, 0x68, 0x69] ∧ m.hdr.dirty = false ∧
+                                Excluded examplePublishDecoded cexSetters = false ∧ Wire.WF (absMsg e.msg))
+             | _ => false)
+           | none => false) = true := by decide
+
+/-- … and a setter that changes the packet's shape (`SetQoS(0)`: no identifier field any more) on a message
+decoded from a *non*-reference encoding: dirty, hence not excluded, re-encoded from the fields -/
+example : (match run cexPublish [.qos 0] with
+           | some m => (match encode m 0 m.len with
+             | .ok e => decide (e.out = [0x30, 0x05, 0x00, 0x01, 0x61, 0x68, 0x69] ∧ m.hdr.dirty = true ∧
+                                Excluded cexPublish [.qos 0] = false)
+             | _ => false)
+           | none => false) = true := by decide
+
+/-- the two excluded witnesses decode back to equal fields -/
+example : (match run cexPublish cexSetters with
+           | some m => (match encode m 0 m.len with
+             | .ok e => (match decodeNew 3 e.out with
+               | .ok d => decide (d.n = e.out.length ∧ absMsg d.msg = absMsg e.msg)
+               | _ => false)
+             | _ => false)
+           | none => false) = true := by decide
 
 /-! ## Tie to the Go source: the length arithmetic and the validators are the regenerated translation
 
